@@ -184,13 +184,20 @@ def build(case):
     a = alpha()
     b.choppers = []
     b.spec = []  # (distance in m, opens in s, closes in s)
+    same_place = {}   # nominal distance -> the variable of the first chopper generated there
     for ch in case["choppers"]:
         d_st = ch["distance"] / D_UNITS[du]
-        if ch.get("int_distance") and du != "m":
+        if ch["distance"] in same_place:
+            # "two choppers at the same distance" means the same stored distance: 1.9 m is 1900 mm as an
+            # integer but 1899.9999999999998 mm as 1.9 / 0.001, i.e. an ulp *upstream* of its twin, which
+            # the package refuses as it must (thorough run, seed 7)
+            dist = same_place[ch["distance"]].copy()
+        elif ch.get("int_distance") and du != "m":
             # whole millimetres / centimetres in an integer variable
             dist = sc.scalar(round(d_st), unit=du, dtype="int64")
         else:
             dist = sc.scalar(d_st, unit=du)
+        same_place.setdefault(ch["distance"], dist)
         d_m = float(dist.value) * D_UNITS[du]   # exact factor; not scipp's integer unit conversion
         lo = b.tmin + a * d_m * b.wmin
         hi = b.tmax + a * d_m * b.wmax
